@@ -200,6 +200,7 @@ def main(argv=None):
             "known_findings_confirmed": sorted(known_hits.keys()),
             "problems": problems[:10],
             "skeleton_changed": ext.get("skeleton_changed", []),
+            **({"exhaustive": True, "exhaustive_note": cfg["exhaustive"]} if cfg.get("exhaustive") else {}),
         },
         "assumptions": cfg.get("assumptions", []),
         "wall_s": round(time.time() - t0, 2),
